@@ -87,7 +87,11 @@ FlushSet(b, fl, fs, keepable) ==
                              k \in IF ~keepable THEN {FALSE}
                                    ELSE IF Strict THEN {Strategy = "memory"} ELSE BOOLEAN}
       allouts == UNION {outs(r) : r \in fs}
+  \* a copy whose flush raised is either evicted or stays buffered STILL CONFLICTING (so that a later flush
+  \* raises again): it must never be re-based on the outside writer's version, or a later flush would
+  \* silently overwrite the outside change (C07)
   IN {[buf |-> [r \in Files |-> IF r \notin fs THEN b[r]
+                                 ELSE IF ch[r][1].err THEN (IF ch[r][2] THEN b[r] ELSE NoEntry)
                                  ELSE IF ch[r][2] /\ b[r].e THEN Clean(b[r], ch[r][1].f.ver) ELSE NoEntry],
        file |-> [r \in Files |-> IF r \in fs THEN ch[r][1].f ELSE fl[r]],
        errs |-> {r \in fs : ch[r][1].err}]
